@@ -11,6 +11,9 @@ def field_req(name, typ):
     if t == '*paillier.PublicKey': return 'pkok(%s) && pkvals(%s) && pkbig(%s)' % (x, x, x)
     if t == '*pedersen.Parameters': return 'pedok(%s)' % x
     if t == '*elgamal.Ciphertext': return '%s != nil && %s.L != nil && %s.M != nil' % (x, x, x)
+    # ciphertexts taken from a peer's message may be absent: the verifiers refuse them (ValidateCiphertexts in
+    # IsValid, and hashing an absent ciphertext fails), so no precondition is needed -- and none may be assumed
+    if t == '*paillier.Ciphertext': return 'true'
     return '%s != nil' % x
 for n in ZK:
     src = open('%s/pkg/zk/%s/%s.go' % (REPO, n, n)).read()
@@ -24,6 +27,8 @@ for n in ZK:
         if len(parts) != 2: continue
         names, typ = parts
         for nm in names.split(','):
+            if n == 'logstar' and nm.strip() == 'G':
+                continue  # optional: nil means the group's base point (handled by the code)
             reqs.append(field_req(nm.strip(), typ))
     pub = ' && '.join(reqs)
     def fields(tname):
